@@ -1170,9 +1170,13 @@ def geobox_union_conservative(geoboxes: List[GeoBox]) -> GeoBox:
 
     reference, *_ = geoboxes
 
-    bbox = bbox_union(
-        bounding_box_in_pixel_domain(geobox, reference=reference) for geobox in geoboxes
-    )
+    # every operand is checked for compatibility, but one without pixels contains nothing and
+    # does not stretch the union towards wherever it happens to be anchored
+    bboxes = [
+        (geobox.is_empty(), bounding_box_in_pixel_domain(geobox, reference=reference))
+        for geobox in geoboxes
+    ]
+    bbox = bbox_union([bb for empty, bb in bboxes if not empty] or [bboxes[0][1]])
 
     affine = reference.affine * Affine.translation(*bbox[:2])
     return GeoBox(shape=bbox.shape, affine=affine, crs=reference.crs)
